@@ -430,9 +430,26 @@ def run_instance(ctx, inst):
         r.verdict, r.note = "error", str(e)
         r.wall = time.time() - t0
         return r
+    wcmd = None
+    if gbw:
+        # check ONLY the witness assertion in the twin (lets --slice-formula drop everything else):
+        # look its property id up first (no symbolic execution involved)
+        wcmd = cbmc_cmd(inst, gbw, True)
+        try:
+            rc0, out0, _, _, _ = run_cmd(["cbmc", gbw, "--function", "harness", "--no-standard-checks", "--drop-unused-functions",
+                                          "--show-properties", "--json-ui"], 300, inst.mem_gb)
+            wid = None
+            for m in json.loads(out0):
+                for pr in m.get("properties", []) if isinstance(m, dict) else []:
+                    if pr.get("description") == "VP_WITNESS":
+                        wid = pr.get("name")
+            if wid:
+                wcmd += ["--property", wid]
+        except Exception:
+            pass
     with cf.ThreadPoolExecutor(2) as ex:
         fp = ex.submit(run_cmd, cbmc_cmd(inst, gb, False), timeout, inst.mem_gb)
-        fw = ex.submit(run_cmd, cbmc_cmd(inst, gbw, True), timeout, inst.mem_gb) if gbw else None
+        fw = ex.submit(run_cmd, wcmd, timeout, inst.mem_gb) if gbw else None
         rc, out, err, wall, to = fp.result()
         wres = fw.result() if fw else None
     r.wall = time.time() - t0
@@ -500,7 +517,7 @@ def replay_native(ctx, inst, inputs, san=True, replay_file=None):
     reproduced-assert | reproduced-sanitizer | not-reproduced | assume-failed | error."""
     # the native replay always links the whole library (unit harnesses that #include a
     # unit shadow its symbols: harness object first + --allow-multiple-definition)
-    want = [u for u in LIB_UNITS + (list(SIMD_UNITS) if inst.simd else []) if u not in inst.exclude]
+    want = [u for u in LIB_UNITS + (list(SIMD_UNITS) if inst.simd else [])]
     objs, flags = ctx.native_lib(san=san, simd=inst.simd, extra_defs=inst.lib_defs, units=want)
     d = tempfile.mkdtemp(prefix="replay-", dir=ctx.work)
     if replay_file is None:
